@@ -56,6 +56,8 @@ POOLS = {
     "str": [["s", "a"], ["s", "b"], ["s", "ab"]],
     "date": [["d", 738000], ["d", 738001]],
     "eq": [["i", 1], ["b", True], ["f", (1.0).hex()], ["i", 0], ["b", False], ["f", (2.5).hex()]],
+    # the ends of the float order: None goes first or last by the caller's choice, never "next to" an infinity
+    "inf": [["f", float("inf").hex()], ["f", float("-inf").hex()], ["f", (1.0).hex()], ["i", 3]],
 }
 
 
